@@ -800,6 +800,11 @@ class World:
                 self.log(a, mode + ".enter", name, ident, amounts, op.get("share"))
                 try:
                     await self.run_ops(a, op.get("body", ()))
+                except BaseException as err:
+                    # what ends the body is on record before the (suspending) exit begins: a
+                    # second signal may replace it while the amounts are handed back
+                    self.log(a, mode + ".body!", name, ident, self.meta(err))
+                    raise
                 finally:
                     self.log(a, mode + ".leave", name, ident, amounts, op.get("share"))
             self.log(a, mode + ".done", name, ident, amounts)
